@@ -188,7 +188,7 @@ def r08_2(ctx):
                 onode = (tr.origin_node[0], tr.origin[1])
                 a0 = origin_call["args"][0]
                 a0ty = sup.body_of(onode).local_ty(a0["p"]["l"]) if is_place(a0) else ""
-                tr2 = strace(sup, onode, a0)
+                tr2 = strace_deep(sup, onode, a0)
                 payload_ok = any(s[0] == "downcast" and s[1] == "Table" for s in tr2.steps)
                 table_typed = a0ty.startswith("&toml::map::Map<") or a0ty.startswith("toml::map::Map<")
             dom = any(ps.edge_dominates(te[0], te[1], te[2], n) for _, te, _ in tsw)
@@ -279,7 +279,12 @@ def r08_5(ctx):
     for it in stream["items"]:
         if it["name"] == "visit_unit":
             b = lib.by_id[it["def"]]
-            names = [fn_of(t)["name"] for _, _, t in Super(lib, b, depth=3).calls() if (fn_of(t) or {}).get("trait") == "serde::Serializer"]
+            vsup = Super(lib, b, depth=3)
+            names = [fn_of(t)["name"] for _, _, t in vsup.calls() if (fn_of(t) or {}).get("trait") == "serde::Serializer"]
+            if len(names) > 1:
+                # a shared dispatch over an intermediate scalar value: the calls feasible for a null
+                reach = PathSens(vsup, payloads=True).reach()
+                names = sorted({fn_of(t)["name"] for n_, _, t in vsup.calls() if (fn_of(t) or {}).get("trait") == "serde::Serializer" and n_ in reach})
             ctx.ob("stream:null-as-unit", names == ["serialize_unit"], site(b), f"streaming visitor forwards null with {names}")
     # value path: visit_unit -> variant -> serializer method
     vu = [it for it in value["items"] if it["name"] == "visit_unit"]
